@@ -456,6 +456,7 @@ PROPS["C12"] = {
         {"test": "TestC12", "kind": "rapid", "quick": {"checks": 15000, "shards": 3}, "thorough": {"checks": 150000, "shards": 10}},
         {"test": "TestC12Independent", "kind": "rapid", "quick": {"checks": 6000, "shards": 2}, "thorough": {"checks": 100000, "shards": 6}},
         {"test": "TestC12History", "kind": "rapid", "quick": {"checks": 1000, "shards": 2, "steps": 25, "shrink": "15s"}, "thorough": {"checks": 15000, "shards": 6, "steps": 30}},
+        {"test": "TestC12FloatKeys", "kind": "rapid", "quick": {"checks": 4000, "shards": 1}, "thorough": {"checks": 60000, "shards": 4}},
     ],
     "min_nontrivial": {"quick": 3000, "thorough": 50000},
 }
